@@ -451,13 +451,15 @@ def actorEnd (s : St) (a : Nat) : St :=
   let s := (s.actors a).activities.foldl cancel s
   s.setActor a (fun x => { x with ended := true, activities := [], wannadie := true })
 
-/-- `EngineImpl::handle_ended_actions`, failed actions: `while (extract_failed_action()) activity->finish()` -/
+/-- `EngineImpl::handle_ended_actions`, failed actions: `while (auto* action = model->extract_failed_action())
+activity->finish()`; `extract_failed_action` pops the front of the failed action set before `finish` runs (which then
+destroys the action: `clean_action`). -/
 def handleEnded : Nat → St → St
   | 0, s => s
   | n + 1, s =>
     match s.failedQ with
     | [] => s
-    | k :: _ => handleEnded n (finish s k)
+    | k :: rest => handleEnded n (finish { s with failedQ := rest } k)
 
 /-- `handle_ended_actions` run until the failed action set is empty: every `finish` takes its activity out of the set
 (`clean_action`), so `failedQ.length` iterations are enough; `nActs + 1` is kept as a lower bound (the bound used
